@@ -17,6 +17,8 @@ enum Item {
     IncRcx,
     JmpNext,
     JmpEnd,
+    /// one byte beyond the end of the code: RIP passes the end without ever being equal to it
+    JmpPastEnd,
     JmpSelf,
     JrcxzSkip,
     CallNext,
@@ -25,12 +27,13 @@ enum Item {
     Int3,
     Invalid,
 }
-const ITEMS: [Item; 12] = [
+const ITEMS: [Item; 13] = [
     Item::Nop,
     Item::MovRax,
     Item::IncRcx,
     Item::JmpNext,
     Item::JmpEnd,
+    Item::JmpPastEnd,
     Item::JmpSelf,
     Item::JrcxzSkip,
     Item::CallNext,
@@ -45,7 +48,7 @@ fn item_len(i: Item) -> usize {
         Item::Nop | Item::Ret | Item::Int3 | Item::Invalid => 1,
         Item::MovRax => 7,
         Item::IncRcx => 3,
-        Item::JmpNext | Item::JmpEnd | Item::JmpSelf | Item::JrcxzSkip | Item::Syscall => 2,
+        Item::JmpNext | Item::JmpEnd | Item::JmpPastEnd | Item::JmpSelf | Item::JrcxzSkip | Item::Syscall => 2,
         Item::CallNext => 5,
     }
 }
@@ -63,6 +66,7 @@ fn assemble(p: &[Item]) -> Vec<u8> {
             Item::IncRcx => out.extend_from_slice(&[0x48, 0xFF, 0xC1]),
             Item::JmpNext => out.extend_from_slice(&[0xEB, 0x00]),
             Item::JmpEnd => out.extend_from_slice(&[0xEB, (total - (pos + 2)) as u8]),
+            Item::JmpPastEnd => out.extend_from_slice(&[0xEB, (total - (pos + 2) + 1) as u8]),
             Item::JmpSelf => out.extend_from_slice(&[0xEB, 0xFE]),
             Item::JrcxzSkip => {
                 let skip = p.get(k + 1).map(|n| item_len(*n)).unwrap_or(0);
